@@ -238,7 +238,7 @@ Ref(t, t0, m, arr) ==
 \* ---------------------------------------------------------------- domain of the definition
 \* Ref is claimed only where the instance numbering it assumes is the real one: every probe / cold id occurs once,
 \* at most one resubscribing operator above a leaf, no subject / connectable sources (C10 / C13 own those).
-RECURSIVE LeafIds(_), NoSubj(_), ResubDepth(_), AnyProbe2(_)
+RECURSIVE LeafIds(_), NoSubj(_), ResubDepth(_), AnyProbe2(_), ResubLeavesOK(_)
 LeafIds(t) == IF t.op \in {"probe", "cold"} THEN <<t.a>> ELSE IF t.in = <<>> THEN <<>> ELSE
               LET RECURSIVE Cat(_) Cat(i) == IF i > Len(t.in) THEN <<>> ELSE LeafIds(t.in[i]) \o Cat(i + 1) IN Cat(1)
 Resubscriber(t) == t.op \in {"retry", "retry_when"} \/ (t.op = "flat_map" /\ t.f \in {"probe2", "probe2map"}) \/ (t.op = "on_error_resume_next" /\ t.f = "probe2")
@@ -248,11 +248,15 @@ NoSubj(t) == t.op \notin {"subject", "rawsubject", "conn", "ready_set_go", "swit
 ResubDepth(t) == LET d == IF t.in = <<>> THEN 0 ELSE LET S == { ResubDepth(t.in[i]) : i \in 1..Len(t.in) } IN CHOOSE x \in S : \A y \in S : y <= x
                  IN d + (IF Resubscriber(t) THEN 1 ELSE 0)
 AnyProbe2(t) == UsesProbe2(t) \/ \E i \in 1..Len(t.in) : AnyProbe2(t.in[i])
+\* retry / retry_when re-subscribe their whole input: with two leaves below, the second one may not have been subscribed in
+\* an attempt that failed while the first was being subscribed, so "attempt k = instance k of every leaf" holds for one leaf only
+ResubLeavesOK(t) == (t.op \in {"retry", "retry_when"} => Len(LeafIds(t)) <= 1) /\ \A i \in 1..Len(t.in) : ResubLeavesOK(t.in[i])
 RefDomain(t) ==
   LET ids == LeafIds(t) IN
   /\ NoSubj(t)
   /\ \A i, j \in 1..Len(ids) : i # j => ids[i] # ids[j]
   /\ (AnyProbe2(t) => \A i \in 1..Len(ids) : ids[i] # 2)
   /\ ResubDepth(t) <= 1
+  /\ ResubLeavesOK(t)
 Diverged(x) == \E i \in 1..Len(x) : x[i].k = "div"
 =============================================================================
